@@ -41,8 +41,10 @@ func planWorlds(seed int64, thorough bool) []worldSpec {
 	var out []worldSpec
 	id := 0
 	nK, nT, nS, nM, rounds := 22, 18, 22, 1, 1
+	actK, actT, actM := 2, 1, 1
 	if thorough {
 		nK, nT, nS, nM, rounds = 48, 44, 48, 4, 2
+		actK, actT, actM = 0, 0, 0
 	}
 	add := func(kind string, c combo, f func(r *rand.Rand, sp *worldSpec)) {
 		id++
@@ -55,6 +57,7 @@ func planWorlds(seed int64, thorough bool) []worldSpec {
 		// K: one table (plus two decoy tables), the key alphabet
 		add("K", c, func(r *rand.Rand, sp *worldSpec) {
 			sp.Tables = []string{"t", "t1", "s"}
+			sp.Act = actK
 			sp.Keys = pickAlphabet(r, keyAlphabetFixed("t"), nK, true, true)
 			sp.Subs = []string{"a", "a:", ""}
 			for _, k := range sp.Keys {
@@ -65,6 +68,7 @@ func planWorlds(seed int64, thorough bool) []worldSpec {
 		// T: the table alphabet, two keys per table
 		add("T", c, func(r *rand.Rand, sp *worldSpec) {
 			sp.Tables = pickAlphabet(r, tableNames(), nT, false, false)
+			sp.Act = actT
 			sp.Keys = []string{"a", "a:b"}
 			sp.Subs = []string{"a", "a:", "\x00"}
 			for _, t := range sp.Tables {
@@ -86,6 +90,7 @@ func planWorlds(seed int64, thorough bool) []worldSpec {
 			// M: random mix of hostile tables, keys and sub-keys
 			add("M", c, func(r *rand.Rand, sp *worldSpec) {
 				sp.Tables = pickAlphabet(r, tableNames(), 5, false, false)
+				sp.Act = actM
 				sp.Keys = pickAlphabet(r, keyAlphabetFixed("tttttttttttt"), 7, true, true)
 				sp.Subs = pickAlphabet(r, subAlphabetFixed(), 4, true, true)
 				for _, t := range sp.Tables {
@@ -140,6 +145,17 @@ func (w *world) universe() []tkey {
 	return out
 }
 
+// acts: in the quick tier only Act of the types of every (table, key) pair are
+// operated on (all are populated and observed); the choice rotates with the pair.
+func (w *world) acts(univIdx int) bool {
+	if w.spec.Act <= 0 {
+		return true
+	}
+	nt := len(w.spec.Types)
+	pair, typ := univIdx/nt, univIdx%nt
+	return ((typ-pair*3-w.spec.ID)%nt+nt)%nt < w.spec.Act
+}
+
 func partnerOf(univ []tkey, i int) tkey {
 	a := univ[i]
 	for d := 1; d < len(univ); d++ {
@@ -173,6 +189,9 @@ func (w *world) run() {
 		for round := 0; round < w.spec.Rounds; round++ {
 			for _, i := range r.Perm(len(univ)) {
 				a := univ[i]
+				if !w.acts(i) {
+					continue
+				}
 				for _, op := range scripts[a.Type] {
 					if !step(w.buildOp(r, op, a, partnerOf(univ, i), nil)) {
 						return
